@@ -224,12 +224,54 @@ class Ctx:
         return p
 
     # ---------------------------------------------------------------- validate
-    def validate(self, module, cfg, obsfile, env=None, timeout=1800, tag=None, heap=None):
-        """Run an Obs_* validation.  Returns list of failure dicts (parsed from the fail file)."""
+    def validate(self, module, cfg, obsfile, env=None, timeout=1800, tag=None, heap=None, parts=None):
+        """Run an Obs_* validation.  Returns list of failure dicts (parsed from the fail file).
+        The observation file is cut into `parts` pieces that are validated by concurrent TLC processes (each
+        observation is judged on its own, so the split cannot change a verdict); line numbers are mapped back."""
         n = count_lines(obsfile)
         if n == 0:
             raise Machinery("no observations in %s (dead driver)" % obsfile)
         tag = tag or cfg.replace(".cfg", "")
+        if parts is None:
+            parts = max(1, min(8, n // 150))
+        if parts == 1:
+            return self._validate_one(module, cfg, obsfile, n, env, timeout, tag, heap)
+        import concurrent.futures
+        with open(obsfile) as fh:
+            lines = [l for l in fh if l.strip()]
+        per = (len(lines) + parts - 1) // parts
+        chunks = []
+        for k in range(parts):
+            sub = lines[k * per:(k + 1) * per]
+            if not sub:
+                continue
+            pth = "%s.part%d" % (obsfile, k)
+            with open(pth, "w") as fh:
+                fh.writelines(sub)
+            chunks.append((k, pth, len(sub), k * per))
+        fails, stats = [], []
+
+        def work(c):
+            k, pth, cnt, off = c
+            f, st = self._validate_one(module, cfg, pth, cnt, env, timeout, "%s_p%d" % (tag, k), heap or "3g", quiet=True)
+            for x in f:
+                x["line"] += off
+            for x in st:
+                if "line" in x:
+                    x["line"] += off
+            return f, st
+
+        t = time.time()
+        with concurrent.futures.ThreadPoolExecutor(max_workers=len(chunks)) as ex:
+            for f, st in ex.map(work, chunks):
+                fails += f
+                stats += st
+        for _, pth, _, _ in chunks:
+            os.remove(pth)
+        log("tlc %s/%s: validated %d observations in %d parallel parts, %.1fs" % (module, cfg, n, len(chunks), time.time() - t))
+        return fails, stats
+
+    def _validate_one(self, module, cfg, obsfile, n, env, timeout, tag, heap, quiet=False):
         failfile = self.path("fail_%s.ndjson" % tag)
         statfile = self.path("stat_%s.ndjson" % tag)
         for f in (failfile, statfile):
